@@ -440,6 +440,10 @@ class Program:
                 continue
             parsed.append((modname, path, tree, src))
         self.attr_renames = _normalise_private_attributes(self, [t for _, _, t, _ in parsed])
+        # local helper objects used only through their small methods are written out (sroa.py)
+        from .sroa import scalar_replace
+
+        self.scalar_replaced = {path: k for _, path, t, _ in parsed for k in [scalar_replace(t)] if k}
         for modname, path, tree, src in parsed:
             m = Module(modname, path, tree, src)
             self.modules[modname] = m
